@@ -247,12 +247,14 @@ Section Total.
       pose proof (get_root_chain _ _ _ _ G1) as C1. pose proof (get_root_chain _ _ _ _ G2) as C2.
       pose proof (chain_hgt _ _ _ _ Hrk C1) as R1. pose proof (chain_hgt _ _ _ _ Hrk C2) as R2.
       assert (T : tspec f o1 o2 (unify_gen occur_check f)).
-      { intros a' s' x y k1' k2' HI' Dx Dy HC'. eapply IH; eauto. }
+      { intros a' s' x y k1' k2' HI' Dx Dy HC'. apply (IH a' s' x y o1 o2 k1' k2'); assumption. }
       assert (U : uspec n M (unify_gen occur_check f)) by (intros a' s' x y; apply unify_post).
       destruct a.
-      + eapply args_body_total; eauto;
-          intros v; apply (occur_check_total s rk Hrk); lia.
-      + eapply types_body_total; eauto;
-          intros v; apply (occur_check_total s rk Hrk); lia.
+      + apply (args_body_total f _ s t1 t2 t1r t2r o1 o2 k1 k2 T HI D1 D2 C1 C2);
+          try (intros v; apply (occur_check_total s rk Hrk); lia).
+        cbv iota in HC. lia.
+      + apply (types_body_total f _ s t1 t2 t1r t2r o1 o2 k1 k2 T U HI Ho1 Ho2 D1 D2 C1 C2);
+          try (intros v; apply (occur_check_total s rk Hrk); lia).
+        cbv iota in HC. lia.
   Qed.
 End Total.
